@@ -74,6 +74,10 @@ Fixpoint good (q prev : N) (s : str) : bool :=
 
 (* What prqlc does NOW (fix commits e3af91e for string literals, 68466ba for identifiers): it doubles every
    quote character itself -- s.replace(q, qq) -- and hands the result to the same sqlparser Display, which then
-   finds only already-doubled quotes and prints them unchanged (Proofs/EscapeProofs.v, esc_dbl). *)
-Definition emit_literal_string (s : str) : str := emit_string (dbl QUOTE s).      (* translate_literal, String / RawString *)
+   finds only already-doubled quotes and prints them unchanged (Proofs/EscapeProofs.v, esc_dbl).
+   Since fix d2c1667 translate_literal first doubles every backslash -- s.replace('\\', "\\\\") -- when the dialect
+   handler answers string_literal_backslash_escape() (flag bs below; which dialects: Gen/GenLiteral.v
+   writer_backslash_doubling, regenerated from sql/dialect.rs). *)
+Definition prep_literal (bs : bool) (s : str) : str := dbl QUOTE (if bs then dbl BSLASH s else s).
+Definition emit_literal_string (bs : bool) (s : str) : str := emit_string (prep_literal bs s).   (* translate_literal, String / RawString *)
 Definition emit_ident_quoted (q : N) (s : str) : str := emit_quoted q (dbl q s).   (* translate_ident_part, quoted form *)
